@@ -199,11 +199,26 @@ class Ctx:
     boxes = {}
     for mi in self.P.modules.values():
       for name, vals_ in mi.assigns.items():
-        if len(vals_) == 1 and name.replace('_', '').isupper() and isinstance(vals_[0], (ast.Dict, ast.Set, ast.Tuple, ast.List)):
+        v_ = vals_[0] if len(vals_) == 1 else None
+        if isinstance(v_, ast.Call) and isinstance(v_.func, ast.Name) and v_.func.id in ('frozenset', 'set', 'tuple', 'list') and len(v_.args) == 1 and not v_.keywords:
+          v_ = v_.args[0]       # frozenset([...]) holds the elements of the literal
+        if v_ is not None and name.replace('_', '').isupper() and isinstance(v_, (ast.Dict, ast.Set, ast.Tuple, ast.List)):
           try:
-            boxes.setdefault(name, []).append(ast.literal_eval(vals_[0]))
+            boxes.setdefault(name, []).append(ast.literal_eval(v_))
           except (ValueError, SyntaxError):
             pass
+    pure = {}
+    OKN = (ast.Name, ast.Constant, ast.BinOp, ast.BoolOp, ast.UnaryOp, ast.Compare, ast.IfExp, ast.Load, ast.operator, ast.boolop, ast.unaryop, ast.cmpop, ast.Call)
+    for mi in self.P.modules.values():
+      for name, fi in mi.functions.items():
+        body = [st for st in fi.node.body if not (isinstance(st, ast.Expr) and isinstance(st.value, ast.Constant))]
+        if len(body) == 1 and isinstance(body[0], ast.Return) and body[0].value is not None and not fi.node.args.kwonlyargs and not fi.node.args.vararg and \
+            all(isinstance(x, OKN) for x in ast.walk(body[0].value)):
+          ps = set(a.arg for a in fi.node.args.args)
+          if all(x.id in ps for x in ast.walk(body[0].value) if isinstance(x, ast.Name) and not any(isinstance(c, ast.Call) and c.func is x for c in ast.walk(body[0].value))):
+            pure.setdefault(name, []).append(fi.node)
+    scenario.PURE_FUNCS.clear()
+    scenario.PURE_FUNCS.update((k, v[0]) for k, v in pure.items() if len(v) == 1)
     scenario.CONTAINERS.clear()
     scenario.CONTAINERS.update((k, v[0]) for k, v in boxes.items() if len(v) == 1)
 
